@@ -632,10 +632,11 @@ type c18Dest struct {
 type c18Seq struct {
 	BoundIP obs.Hex   `json:"bound_ip"`
 	BoundPt int       `json:"bound_port"`
-	Dests   []c18Dest `json:"dests"` // destination of each write, in order
-	Lens    []int     `json:"lens"`  // payload length of each write
-	Reuse   bool      `json:"reuse"` // the caller reuses one payload buffer for all writes
-	Fill    byte      `json:"fill"`  // payload octets are Fill + position + index of the write
+	Dests   []c18Dest `json:"dests"`            // destination of each write, in order
+	Lens    []int     `json:"lens"`             // payload length of each write
+	Reuse   bool      `json:"reuse"`            // the caller reuses one payload buffer for all writes
+	Fill    byte      `json:"fill"`             // payload octets are Fill + position + index of the write
+	Repeat  int       `json:"repeat,omitempty"` // the whole list of destinations is written this many times over (0: once): a long-lived connection
 }
 
 // c18seq: a connection is written to many times in its life, to the same and to other destinations. Every frame is
@@ -654,7 +655,11 @@ var c18seq = newChk("C18", "write-sequence",
 		conn := nclient4.NewBroadcastUDPConn(raw, bound)
 		buf := make([]byte, 1500)
 		var sent [][]byte
-		for i, d := range c.Dests {
+		dests := c.Dests
+		for r := 1; r < c.Repeat; r++ {
+			dests = append(dests, c.Dests...)
+		}
+		for i, d := range dests {
 			n := c.Lens[i%len(c.Lens)]
 			p := make([]byte, n)
 			if c.Reuse {
@@ -675,19 +680,19 @@ var c18seq = newChk("C18", "write-sequence",
 				return obs.Failf("C18/sequence/write-error", "write succeeds", "write %d: %v", i, err)
 			}
 		}
-		if len(raw.writes) != len(c.Dests) {
-			return obs.Failf("C18/sequence/write-count", fmt.Sprintf("%d frames", len(c.Dests)), "%d", len(raw.writes))
+		if len(raw.writes) != len(dests) {
+			return obs.Failf("C18/sequence/write-count", fmt.Sprintf("%d frames", len(dests)), "%d", len(raw.writes))
 		}
 		changes := false
-		for i, d := range c.Dests {
+		for i, d := range dests {
 			var dst4 [4]byte
 			copy(dst4[:], d.IP)
 			if _, fl := c18FrameCheck(raw.writes[i].b, src, c.BoundPt, dst4, d.Port, sent[i], false); fl != nil {
 				fl.Sig = strings.Replace(fl.Sig, "C18/", "C18/sequence/", 1)
-				fl.Got = fmt.Sprintf("write %d of %d: %s", i, len(c.Dests), fl.Got)
+				fl.Got = fmt.Sprintf("write %d of %d: %s", i, len(dests), fl.Got)
 				return fl
 			}
-			if i > 0 && (d.Port != c.Dests[i-1].Port || !bytes.Equal(d.IP, c.Dests[i-1].IP)) {
+			if i > 0 && (d.Port != dests[i-1].Port || !bytes.Equal(d.IP, dests[i-1].IP)) {
 				changes = true
 			}
 		}
@@ -724,6 +729,12 @@ func TestC18_WriteSequences(t *testing.T) {
 				}
 			}
 		}
+	}
+	// a long-lived connection: 70,000 datagrams through one connection (every frame judged like the first)
+	for _, bound := range []c18Seq{{BoundPt: 68}, {BoundIP: []byte{192, 168, 1, 7}, BoundPt: 68}} {
+		c := bound
+		c.Lens, c.Dests, c.Fill, c.Repeat = []int{0, 1, 2, 37}, c18Pool[:7], 0x5a, 10000
+		c18seq.one(t, c)
 	}
 	c18seq.rec.Class("all ordered pairs and triples over the destination pool")
 }
